@@ -3,7 +3,7 @@
 From Coq Require Import List ZArith NArith Bool Lia.
 From Coq.Strings Require Import Byte.
 Import ListNotations.
-From SV Require Import Text C01_Lines G_codes G_c01_io C01_Model C01_Lemmas C01_Formats C01_IdPattern.
+From SV Require Import Text C01_Lines G_codes G_c01_io C01_Model C01_Lemmas C01_Formats C01_IdPattern C01_Stockholm C01_Gff.
 
 Lemma forallb_lstrip_ch p ch s : forallb p s = true -> forallb p (lstrip_ch ch s) = true.
 Proof.
@@ -73,9 +73,11 @@ Proof. intros H. unfold text_lines. apply pylines_chars, univ_nl_chars. exact H.
 Lemma wfb_fasta_set_fmt f s : wfb_fasta (set_fmt f s) = wfb_fasta s.
 Proof. destruct s. reflexivity. Qed.
 
-Lemma shaped_wfb f s : shaped line_char s -> rec_ok Fasta (set_fmt f s) = true -> wfb_fasta s = true.
+Lemma shaped_wfb f0 f s : f0 <> Stockholm -> shaped line_char s -> rec_ok f0 (set_fmt f s) = true -> wfb_fasta s = true.
 Proof.
-  intros (h & d & E & Hh) Hr. subst s. unfold rec_ok in Hr.
+  intros Hf0 (h & d & E & Hh) Hr. subst s.
+  assert (Hr' : rec_ok Fasta (set_fmt f (create_bioseq (id_from_header h, h, d))) = true) by (destruct f0; [exact Hr|contradiction|exact Hr|exact Hr]).
+  clear Hr. rename Hr' into Hr. unfold rec_ok in Hr.
   cbn [create_bioseq set_header set_fmt bioseq b_id b_data b_nt b_header] in Hr.
   apply andb_prop in Hr. destruct Hr as [Hres Hi].
   destruct (id_from_header h) as [i|] eqn:Eid; [|discriminate].
@@ -99,8 +101,106 @@ Proof.
     cbn [bind] in E. inversion E; subst o1. clear E.
     pose proof (iter_fasta_shape line_char _ None r (text_lines_chars t Ht) I Er) as Hs.
     rewrite forallb_forall. intros s Hin. apply in_map_iff in Hin. destruct Hin as (s0 & Es & Hin0). subst s.
-    rewrite wfb_fasta_set_fmt. rewrite Forall_forall in Hs. apply (shaped_wfb Fasta s0 (Hs s0 Hin0)).
+    rewrite wfb_fasta_set_fmt. rewrite Forall_forall in Hs. apply (shaped_wfb Fasta Fasta s0 ltac:(discriminate) (Hs s0 Hin0)).
     rewrite forallb_forall in Hr. apply Hr. apply in_map. exact Hin0. }
   destruct (fasta_cycle o1 Hw) as (t2 & H1 & H2 & H3).
+  exists o1, t2. auto 6.
+Qed.
+
+(* ---------------------------------------------------------------- GFF3 + ##FASTA, reader side *)
+Lemma gff_skip_chars P ls : forall rest, forallb (forallb P) ls = true -> gff_skip ls = Ok rest -> forallb (forallb P) rest = true.
+Proof.
+  induction ls as [|l ls IH]; intros rest H E.
+  - cbn in E. inversion E. reflexivity.
+  - cbn [forallb] in H. apply andb_prop in H. destruct H as [_ H]. cbn [gff_skip] in E.
+    destruct (startswith GFF_FASTA l); [inversion E; subst; exact H|].
+    destruct (head_is HASH l || is_blank l); [apply IH; assumption|].
+    destruct (gff_ft_ok l); [apply IH; assumption|discriminate].
+Qed.
+
+Theorem gff_reader_fixpoint t : wf_text Gff t = true ->
+  exists o1 t2, read_content Gff (CText t) = Ok o1 /\ forallb wfb_fasta o1 = true
+    /\ write_w Gff o1 = Ok t2 /\ read_content Gff t2 = Ok (map (norm_fasta Gff) o1)
+    /\ write_w Gff (map (norm_fasta Gff) o1) = Ok t2.
+Proof.
+  unfold wf_text. intros H. apply andb_prop in H. destruct H as [H Hr]. apply andb_prop in H. destruct H as [Ht _].
+  destruct (read_content Gff (CText t)) as [o1|e] eqn:E; [|discriminate].
+  apply andb_prop in Hr. destruct Hr as [_ Hr].
+  assert (Hw : forallb wfb_fasta o1 = true).
+  { unfold read_content, read_gff_lines in E. destruct (gff_skip (text_lines t)) as [rest|e] eqn:Es; [|discriminate].
+    cbn [bind] in E. destruct (read_fasta_lines rest) as [r|e] eqn:Er; [|discriminate].
+    cbn [bind] in E. inversion E; subst o1. clear E.
+    pose proof (gff_skip_chars line_char _ _ (text_lines_chars t Ht) Es) as Hc.
+    pose proof (iter_fasta_shape line_char _ None r Hc I Er) as Hs.
+    rewrite forallb_forall. intros s Hin. apply in_map_iff in Hin. destruct Hin as (s0 & Es0 & Hin0). subst s.
+    rewrite wfb_fasta_set_fmt. rewrite Forall_forall in Hs. apply (shaped_wfb Gff Gff s0 ltac:(discriminate) (Hs s0 Hin0)).
+    rewrite forallb_forall in Hr. apply Hr. apply in_map. exact Hin0. }
+  destruct (gff_seq_roundtrip o1 Hw) as (t2 & H1 & H2 & H3).
+  exists o1, t2. auto 6.
+Qed.
+
+(* ---------------------------------------------------------------- Stockholm, reader side *)
+Lemma keys_dict_append x k v d : existsb (str_eqb x) (map fst (dict_append k v d)) = true ->
+  existsb (str_eqb x) (map fst d) = true \/ str_eqb x k = true.
+Proof.
+  induction d as [|[k0 v0] d IH]; cbn [dict_append map fst existsb].
+  - rewrite orb_false_r. auto.
+  - destruct (str_eqb k0 k); cbn [map fst existsb]; [auto|].
+    intros H. apply orb_true_iff in H. destruct H as [H|H]; [rewrite H; auto|].
+    destruct (IH H) as [H1|H1]; [rewrite H1, orb_true_r; auto|auto].
+Qed.
+Lemma dict_append_distinct k v d : distinct (map fst d) = true -> distinct (map fst (dict_append k v d)) = true.
+Proof.
+  induction d as [|[k0 v0] d IH]; intros H; [reflexivity|].
+  cbn [map fst distinct] in H. apply andb_prop in H. destruct H as [H1 H2].
+  cbn [dict_append]. destruct (str_eqb k0 k) eqn:E.
+  - cbn [map fst distinct]. rewrite H1. exact H2.
+  - cbn [map fst distinct]. rewrite (IH H2), andb_true_r. apply negb_true_iff.
+    destruct (existsb (str_eqb k0) (map fst (dict_append k v d))) eqn:Ex; [|reflexivity].
+    apply keys_dict_append in Ex. destruct Ex as [Ex|Ex]; [apply negb_true_iff in H1; congruence|congruence].
+Qed.
+Lemma stk_line_distinct l d d' brk : distinct (map fst d) = true -> stk_line l d = Ok (d', brk) -> distinct (map fst d') = true.
+Proof.
+  intros H. unfold stk_line. destruct (strip l) as [|c r] eqn:El; [intros E; inversion E; subst; exact H|].
+  repeat match goal with
+         | |- (if ?b then _ else _) = _ -> _ => destruct b
+         | |- Ok _ = Ok _ -> _ => intros E; inversion E; subst; try exact H
+         | |- Err _ = Ok _ -> _ => discriminate
+         end.
+  destruct (split1 (c :: r)) as [k v]. intros E. inversion E; subst. apply dict_append_distinct. exact H.
+Qed.
+Lemma stk_loop_distinct ls : forall d d', distinct (map fst d) = true -> stk_loop ls d = Ok d' -> distinct (map fst d') = true.
+Proof.
+  induction ls as [|l ls IH]; intros d d' H E.
+  - cbn in E. inversion E; subst. exact H.
+  - cbn [stk_loop] in E. destruct (stk_line l d) as [[d1 brk]|e] eqn:El; [|discriminate]. cbn [bind] in E.
+    pose proof (stk_line_distinct _ _ _ _ H El) as H1.
+    destruct brk; [inversion E; subst; exact H1|]. apply (IH _ _ H1 E).
+Qed.
+
+Lemma wfb_stk_set_fmt f s : wfb_stk (set_fmt f s) = wfb_stk s.
+Proof. destruct s. reflexivity. Qed.
+
+Theorem stockholm_reader_fixpoint t : wf_text Stockholm t = true ->
+  exists o1 t2, read_content Stockholm (CText t) = Ok o1 /\ wf_stk_basket o1 = true
+    /\ write_w Stockholm o1 = Ok t2 /\ read_content Stockholm t2 = Ok (map (norm_plain Stockholm) o1)
+    /\ write_w Stockholm (map (norm_plain Stockholm) o1) = Ok t2.
+Proof.
+  unfold wf_text. intros H. apply andb_prop in H. destruct H as [H Hr]. clear H.
+  destruct (read_content Stockholm (CText t)) as [o1|e] eqn:E; [|discriminate].
+  apply andb_prop in Hr. destruct Hr as [_ Hr].
+  assert (Hw : wf_stk_basket o1 = true).
+  { unfold read_content, read_stockholm_lines in E. destruct (stk_loop (text_lines t) []) as [d|e] eqn:Ed; [|discriminate].
+    cbn [bind] in E. inversion E; subst o1. clear E.
+    pose proof (stk_loop_distinct _ [] _ eq_refl Ed) as Hd.
+    unfold wf_stk_basket. apply andb_true_intro. split.
+    - rewrite forallb_forall. intros s Hin. rewrite forallb_forall in Hr. specialize (Hr s Hin).
+      apply in_map_iff in Hin. destruct Hin as (s0 & Es & Hin0). apply in_map_iff in Hin0. destruct Hin0 as ([k v] & Ekv & _).
+      subst s s0. unfold rec_ok in Hr. cbn [set_fmt bioseq b_data b_id fst snd] in Hr.
+      apply andb_prop in Hr. destruct Hr as [Hres Hi]. apply andb_prop in Hi. destruct Hi as [Hi Hne].
+      unfold wfb_stk, wfb_common. cbn [set_fmt bioseq b_data b_id b_nt fst snd].
+      rewrite Hi, Hres, upper_idem, str_eqb_refl, eqb_reflx. cbn [andb]. exact Hne.
+    - unfold ids_of. rewrite !map_map. cbn [set_fmt bioseq id_or_empty b_id fst]. exact Hd. }
+  destruct (stockholm_roundtrip o1 Hw) as (t2 & H1 & H2 & H3).
   exists o1, t2. auto 6.
 Qed.
